@@ -273,6 +273,14 @@ class World:
             if cached.permanent_flags != flags:
                 return 'cached flags %r != stored %r' % (sorted(map(bytes, cached.permanent_flags)),
                                                          sorted(map(bytes, flags)))
+        # what the *client* believes: the flags of the last FETCH it was sent for each message
+        c = self.clients[s]
+        recent = self.g['Recent']
+        if len(c.entries) == len(store):
+            for ent, (uid, flags, _) in zip(c.entries, store):
+                if ent['flags'] is not None and frozenset(f for f in ent['flags'] if f != recent) != frozenset(flags):
+                    return 'the client was last told flags %r, the mailbox has %r' % (
+                        sorted(str(f) for f in ent['flags'] if f != recent), sorted(str(f) for f in flags))
         return None
 
     def learn_uids(self, s):
